@@ -66,6 +66,7 @@ struct World {
     delivered: Vec<Value>,         // every htlc event delivered so far (for replays after a crash)
     answered: Vec<u64>,
     resolved: Vec<u64>,
+    held: Vec<(usize, usize)>,
 }
 
 impl World {
@@ -169,6 +170,8 @@ impl World {
         out
     }
 }
+
+fn fail_code(k: usize) -> i64 { [202, 203, 204, 209][k % 4] }
 
 fn wall() -> Duration { SystemTime::now().duration_since(UNIX_EPOCH).unwrap() }
 
@@ -415,7 +418,7 @@ fn expand(w: &mut World, ev: &Value) -> Vec<Value> {
     };
     match kind {
         "proc_next" => {
-            let l: Vec<(usize, usize)> = v.unprocessed.iter().filter(|(h, c, k)| !(k == "wait" && wait_is_pending(w, *h, *c))).map(|(h, c, _)| (*h, *c)).collect();
+            let l: Vec<(usize, usize)> = v.unprocessed.iter().filter(|(h, c, k)| !(k == "wait" && wait_is_pending(w, *h, *c)) && !w.held.contains(&(*h, *c))).map(|(h, c, _)| (*h, *c)).collect();
             match pick(&l, ev) { Some((h, c)) => { let mut e = json!({"e": "proc", "h": h, "c": c, "fault": ev.get("fault").cloned().unwrap_or(json!("none"))}); if let Some(x) = ev.get("err") { e["err"] = x.clone(); } vec![e] } None => vec![] }
         }
         "deliver_next" => match pick(&v.replied, ev) { Some((h, c)) => vec![json!({"e": "deliver", "h": h, "c": c})], None => vec![] },
@@ -428,6 +431,7 @@ fn expand(w: &mut World, ev: &Value) -> Vec<Value> {
             if let Some((h, c)) = v.replied.iter().find(|(h, _)| hsel.map(|x| x == *h).unwrap_or(true)) { return vec![json!({"e": "deliver", "h": h, "c": c})]; }
             for (h, c, k) in v.unprocessed.iter() {
                 if hsel.map(|x| x != *h).unwrap_or(false) { continue; }
+                if w.held.contains(&(*h, *c)) { continue; }
                 if k == "wait" && wait_is_pending(w, *h, *c) { continue; }
                 return vec![json!({"e": "proc", "h": h, "c": c, "fault": "none"})];
             }
@@ -501,7 +505,7 @@ pub fn run_case(case: &Value) -> Value {
     let node: Shared = Arc::new(Mutex::new(Node::default()));
     let mut w = World { cfg: cfg.clone(), node: node.clone(), invoices: vec![], hashes: vec![], preimages: BTreeMap::new(), att_ord: BTreeMap::new(),
         responses: Arc::new(Mutex::new(vec![])), notes: Arc::new(Mutex::new(vec![])), height: Arc::new(AtomicU32::new(0)), panics_seen: PANICS.load(Ordering::SeqCst),
-        skew_guard: BTreeMap::new(), skewed: false, next_uid: 0, delivered: vec![], answered: vec![], resolved: vec![] };
+        skew_guard: BTreeMap::new(), skewed: false, next_uid: 0, delivered: vec![], answered: vec![], resolved: vec![], held: vec![] };
     // invoices: either descriptors (built here) or {"raw": bolt11}
     for d in case["invoices"].as_array().cloned().unwrap_or_default() {
         let s = match d.get("raw").and_then(|r| r.as_str()) { Some(r) => r.to_string(), None => world::make_invoice(&d) };
@@ -568,7 +572,7 @@ pub fn run_case(case: &Value) -> Value {
                     } else if e["e"] == "finale" {
                         // drive everything to quiescence without faults: drain; finish running pays; resolve
                         // pending parts; let the MPP timer expire. mode "coop": pays complete, else they fail.
-                        if drain_budget == 0 { drain_budget = 600; }
+                        if drain_budget == 0 { drain_budget = 600; w.held.clear(); }
                         drain_budget -= 1;
                         if drain_budget == 0 { si += 1; continue; }
                         let coop = e.get("mode").and_then(|m| m.as_str()) == Some("coop");
@@ -580,12 +584,12 @@ pub fn run_case(case: &Value) -> Value {
                                     if v.has_done.contains(h) { json!({"e": "payfin", "h": h, "c": c, "out": "complete"}) }
                                     else if let Some((_, p)) = v.pend_parts.iter().find(|(hh, _)| hh == h) { json!({"e": "part", "h": h, "pid": p, "st": "done"}) }
                                     else { json!({"e": "newpart", "h": h, "c": c}) }
-                                } else if let Some((_, p)) = v.pend_parts.iter().find(|(hh, _)| hh == h) { json!({"e": "part", "h": h, "pid": p, "st": "fail", "code": 203}) }
+                                } else if let Some((_, p)) = v.pend_parts.iter().find(|(hh, _)| hh == h) { json!({"e": "part", "h": h, "pid": p, "st": "fail", "code": fail_code(*p + events.len())}) }
                                 else if v.has_done.contains(h) { json!({"e": "payfin", "h": h, "c": c, "out": "complete"}) }
                                 else { json!({"e": "payfin", "h": h, "c": c, "out": "failed"}) }
                             } else if let Some((h, p)) = v.pend_parts.first() {
                                 let done = e.get("old_parts").and_then(|m| m.as_str()) == Some("done");
-                                if done { json!({"e": "part", "h": h, "pid": p, "st": "done"}) } else { json!({"e": "part", "h": h, "pid": p, "st": "fail", "code": 204}) }
+                                if done { json!({"e": "part", "h": h, "pid": p, "st": "done"}) } else { json!({"e": "part", "h": h, "pid": p, "st": "fail", "code": fail_code(*p + events.len() + 1)}) }
                             } else {
                                 let unanswered = w.delivered.iter().any(|d| !w.answered.contains(&d["uid"].as_u64().unwrap()) && d["epoch"].as_u64() == Some(w.node.lock().unwrap().epoch));
                                 let ticks = e.get("_ticks").and_then(|t| t.as_u64()).unwrap_or(0);
@@ -596,6 +600,14 @@ pub fn run_case(case: &Value) -> Value {
                                 } else { si += 1; drain_budget = 0; finale_ticks = 0; continue; }
                             }
                         }
+                    } else if e["e"] == "hold_unprocessed" {
+                        // withhold every currently unprocessed call (a straggling RPC): drains skip them until "release"
+                        si += 1;
+                        let v = view(&mut w);
+                        for (h, c, _) in v.unprocessed.iter() { w.held.push((*h, *c)); }
+                        continue;
+                    } else if e["e"] == "release" {
+                        si += 1; w.held.clear(); continue;
                     } else if e["e"] == "replay_unanswered" {
                         // re-deliver (one per round) every delivered htlc that has no answer yet and was not yet replayed in this epoch
                         let epoch = w.node.lock().unwrap().epoch;
